@@ -304,6 +304,15 @@ func (db *DB) Merge() error {
 		return errors.New("not support mode `HintBPTSparseIdxMode`")
 	}
 
+	// Merge reads the indexes, switches the active file and removes segments: it needs the
+	// database to itself from the first index lookup to the last removal, like a write transaction.
+	db.mu.Lock()
+	defer db.mu.Unlock()
+
+	if db.closed {
+		return ErrDBClosed
+	}
+
 	db.isMerging = true
 
 	_, pendingMergeFIds = db.getMaxFileIDAndFileIDs()
@@ -1011,11 +1020,13 @@ func (db *DB) reWriteData(pendingMergeEntries []*Entry) error {
 	if len(pendingMergeEntries) == 0 {
 		return nil
 	}
-	tx, err := db.Begin(true)
+	// the caller (Merge) holds the database lock for this transaction
+	tx, err := newTx(db, true)
 	if err != nil {
 		db.isMerging = false
 		return err
 	}
+	tx.lockHeld = true
 
 	dataFile, err := NewDataFile(db.getDataPath(db.MaxFileID+1), db.opt.SegmentSize, db.opt.RWMode)
 	if err != nil {
